@@ -102,6 +102,7 @@ class C11(core.Check):
             'terminators 0..255, embedded strings on/off, .fill n,v (n 0..40) / .zero n / .zerountil a for a around the '
             'cursor; both endiannesses; expected bytes from the byte model; compared with the image at model addresses. '
             'distinct_nontrivial = distinct (directive, endian, value-class multiset / escape set) signatures.')
+    rule = rule + ' ' + '.fill values also refer to labels defined before and after the line.'
     assumptions = (
         'strings contain no ";" and no unescaped delimiting quote; multi-byte directives are not given strings; '
         'a backslash-zero is never followed by a digit (octal escape): those are DONT_CARE',
